@@ -51,6 +51,11 @@ func inject(rng *rand.Rand, p *fqlast.Program, next *int64) {
 		if rng.Intn(3) == 0 {
 			// an outer loop over closables: the loop variable binds each of them
 			outer := &fqlast.For{Val: fmt.Sprintf("c%d", *next+1), Src: fqlast.Arr(closer(), closer()), Ret: &fqlast.Ret{For: p.For}}
+			if rng.Intn(2) == 0 {
+				// ... and a LIMIT with an offset right behind the source: the rows it skips were bound too
+				outer.Src = fqlast.Arr(closer(), closer(), closer())
+				outer.Body = []fqlast.Clause{{K: "limit", Offset: fqlast.Int(int64(1 + rng.Intn(3))), Count: fqlast.Int(int64(rng.Intn(3)))}}
+			}
 			p.For = outer
 		}
 	} else if rng.Intn(3) == 0 {
